@@ -15,6 +15,7 @@ import TracingModel.Core.DirectiveDriver
 import TracingModel.Core.FilteringDriver
 import TracingModel.Core.NotifyDriver
 import TracingModel.Core.ReloadDriver
+import TracingModel.Core.RegRaceDriver
 
 open TM TM.Wire
 
@@ -49,6 +50,9 @@ def dispatch (prop mode : String) : Option (List String → String) :=
   | "C02", "model" => some CoreDriver.model
   | "C02", "spec" => some CoreDriver.spec
   | "C03", "model" => some SpanDriver.model
+  | "C04", "judge" => some RegRaceDriver.judge
+  | "C04", "model" => some CoreDriver.model
+  | "C04", "spec" => some CoreDriver.spec
   | "C05", "model" => some RegistryDriver.model
   | "C05", "spec" => some RegistryDriver.spec
   | "C06", "model" => some RegistryDriver.model
